@@ -199,9 +199,37 @@ def heap_part(ctx, c):
                                   theorem=th, found_input=True, replay={'program': cases[i], 'observed_score': outs[i]['score']}))
 
 
+def close_part(ctx, c):
+    """the score closed from INSIDE the routine that runs last (score.finish(tail) / main.process(tail)), model KScore.nrt_run_closed_inside"""
+    cases = [K.gen_close_prog(ctx.rng) for _ in range(ctx.n(24, 240))]
+    outs = ctx.impl('c05_kscript', {'cases': cases}, mode='nrt')['out']
+    c.evaluations += len(cases)
+    items, idx = [], []
+    for i, (p, o) in enumerate(zip(cases, outs)):
+        if 'fatal' in o or not o.get('raw_ok'):
+            c.failures.append(Failure('correspondence', 'score closed from inside a routine: run failed: %s. Program: %s'
+                                      % (o.get('fatal', 'raw bytes do not split into the list entries')[-400:], json.dumps(p)), replay={'program': p}))
+            continue
+        c.count('nrt:score closed from inside a routine on %s with %s' % (K.clock_name(p['main'][0][2]) if p['main'][0][0] == 'P' else '?', p['close']['how']))
+        c.nontriv(('close', json.dumps(p, sort_keys=True)))
+        items.append('(%s, %s, mkNObs %s %s %s)' % (K.prog(p), K.q(p['close']['tail']), fw.clist(o['events'], K.event), fw.clist(o['score'], K.selem), K.q(o['elapsed'])))
+        idx.append(i)
+    body = 'Eval vm_compute in bad_idx (fun c => match c with (p, tl, o) => closed_agrees p %d tl o end) cases.' % K.FUEL
+    bad, errs = fw.check_shards(ctx, 'nrt_close', K.CLOSE_HEADER, items, body, shard=40)
+    for e in errs:
+        c.failures.append(Failure('correspondence', 'coq evaluation of closed-inside cases failed: ' + e[:800]))
+    for b in bad[:3]:
+        p, o = cases[idx[b]], outs[idx[b]]
+        text = K.close_monitor(p, o) or 'model and implementation disagree'
+        c.failures.append(Failure('correspondence', 'score_ends_with_tail_marker (closed from inside a routine) fails on the real library (NRT): %s. Program: %s'
+                                  % (text, json.dumps(p)), theorem='score_ends_with_tail_marker_closed_inside', found_input=True,
+                                  replay={'program': p, 'observed_score': o['score'], 'observed_elapsed': o['elapsed']}))
+
+
 def correspond(ctx):
     c = Corr()
     unit_part(ctx, c)
+    close_part(ctx, c)
     msgnest_part(ctx, c)
     heap_part(ctx, c)
     shared_part(ctx, c)
